@@ -270,7 +270,7 @@ package sbom
 //@   assigns n.*
 //@   ensures-each Node[string] except Id: [C09:update:$f] n.$f == old(n2.$f != "" ? n2.$f : n.$f)
 //@   ensures-each Node[enum]: [C09:update:$f] n.$f == old(n2.$f != 0 ? n2.$f : n.$f)
-//@   ensures-each Node[slice,map]: [C09:update:$f] n.$f == old(len(n2.$f) > 0 ? n2.$f : n.$f)
+//@   ensures-each Node[slice,ptrslice,map]: [C09:update:$f] n.$f == old(len(n2.$f) > 0 ? n2.$f : n.$f)
 //@   ensures-each Node[ptr]: [C09:update:$f] n.$f == old(n2.$f != nil ? n2.$f : n.$f)
 //@   ensures [C09:update:Id] n.Id == old(n.Id)
 
@@ -280,7 +280,7 @@ package sbom
 //@   assigns n.*
 //@   ensures-each Node[string] except Id: [C09:augment:$f] n.$f == old(n.$f != "" ? n.$f : n2.$f)
 //@   ensures-each Node[enum]: [C09:augment:$f] n.$f == old(n.$f != 0 ? n.$f : n2.$f)
-//@   ensures-each Node[slice,map]: [C09:augment:$f] n.$f == old(len(n.$f) > 0 ? n.$f : (len(n2.$f) > 0 ? n2.$f : n.$f))
+//@   ensures-each Node[slice,ptrslice,map]: [C09:augment:$f] n.$f == old(len(n.$f) > 0 ? n.$f : (len(n2.$f) > 0 ? n2.$f : n.$f))
 //@   ensures-each Node[ptr]: [C09:augment:$f] n.$f == old(n.$f != nil ? n.$f : n2.$f)
 //@   ensures [C09:augment:Id] n.Id == old(n.Id)
 
